@@ -6,7 +6,7 @@
 set -e
 if [ ! -d /tmp/rscratch ]; then git -C /repo worktree add -q --detach /tmp/rscratch HEAD; fi
 git -C /tmp/rscratch checkout -q --detach "$(git -C /repo rev-parse HEAD)"
-git -C /tmp/rscratch checkout -- .
+git -C /tmp/rscratch checkout -- . && git -C /tmp/rscratch clean -fdqx -e target -e Cargo.lock
 mkdir -p /tmp/vscratch
 rsync -a --delete --exclude target --exclude replays --exclude .git --exclude evidence /verif/ /tmp/vscratch/
 for f in /tmp/vscratch/*/Cargo.toml; do sed -i 's|path = "/repo"|path = "/tmp/rscratch"|' "$f"; done
